@@ -3,6 +3,7 @@ package props
 import (
 	"bytes"
 	"fmt"
+	"github.com/dave/dst/decorator/resolver/goast"
 	"go/ast"
 	"go/token"
 	"go/types"
@@ -159,10 +160,52 @@ func c10One(c *fw.Ctx, id string, i int) {
 	dself := decorator.NewDecoratorWithImports(p.Fset, p.PkgPath, gotypes.New(info.Uses))
 	dself.ResolveLocalPath = cross
 	var dfiles []*dst.File
-	before := map[string][]string{} // decl name -> denotations
+	before := map[string][]string{}            // decl name -> denotations
 	stmtDenotations := map[string][][]string{} // st* function name -> denotations per body statement
-	for _, af := range files {
-		df, err := dself.DecorateFile(af)
+	// same-package histories of programs without dot-imports are, every other time, decorated as a
+	// whole *ast.Package with the syntax-based resolver (each file against its own imports)
+	asPackage := false
+	if !cross && r.Intn(2) == 0 {
+		asPackage = true
+		for _, fs := range p.Files {
+			for _, nm := range fs.Naming {
+				if nm == "." {
+					asPackage = false
+				}
+			}
+		}
+	}
+	var pkgNode *dst.Package
+	if asPackage {
+		names := map[string]string{}
+		for _, l := range gen.Libs {
+			names[l.ImportPath] = l.Name
+		}
+		apkg := &ast.Package{Name: "self", Files: map[string]*ast.File{}}
+		for k, af := range files {
+			apkg.Files[fmt.Sprintf("m%d.go", k)] = af
+		}
+		dpk := decorator.NewDecoratorWithImports(p.Fset, p.PkgPath, goast.WithResolver(simple.New(names)))
+		dn, err := dpk.DecorateNode(apkg)
+		if err != nil {
+			c.Violate("decorate-error", "decorate-error:package", id+": "+err.Error(), "")
+			return
+		}
+		pkgNode = dn.(*dst.Package)
+		c.Count("histories_decorated_as_package", 1)
+	}
+	for k, af := range files {
+		var df *dst.File
+		var err error
+		if pkgNode != nil {
+			df = pkgNode.Files[fmt.Sprintf("m%d.go", k)]
+			if df == nil {
+				c.Violate("decorate-error", "decorate-error:package", id+": file missing in the decorated package", "")
+				return
+			}
+		} else {
+			df, err = dself.DecorateFile(af)
+		}
 		if err != nil {
 			c.Violate("decorate-error", "decorate-error", id+": "+err.Error(), "")
 			return
